@@ -6,7 +6,7 @@ from typing import Optional
 
 from metapype.model import metapype_io, mp_io
 from metapype.model.node import Node
-from harness.hlib import SHAPES, build, nodes, snap, snap_links, count, part, bound
+from harness.hlib import fresh, SHAPES, build, nodes, snap, snap_links, count, part, bound
 
 _P = part(105)
 SH = _P % 100            # shape
@@ -47,7 +47,7 @@ to_20210209 = _load_converter()
 
 
 def _tree(val: Optional[str], where: int):
-    Node.store.clear()
+    fresh()
     root = build(SHAPES[SH], "n")
     ns = nodes(root)
     for n in ns:
@@ -103,7 +103,7 @@ def h_roundtrip(val: Optional[str], where: int) -> str:
     text = metapype_io.to_json(root)
     if snap(root) != before:
         return "to_json modified the tree"
-    Node.store.clear()
+    fresh()
     back = metapype_io.from_json(text)
     if snap(back) != before:
         return "reloaded tree differs: %r vs %r" % (snap(back), before)
@@ -133,7 +133,7 @@ def h_legacy(val: Optional[str], where: int) -> str:
     root = _tree(val, where)
     before = _legacy_snap(root)
     text = mp_io.to_json(root)
-    Node.store.clear()
+    fresh()
     back = mp_io.from_json(FakeJson.loads(text))
     if _legacy_snap(back) != before:
         return "legacy codec: reloaded tree differs: %r vs %r" % (_legacy_snap(back), before)
@@ -145,7 +145,7 @@ def h_legacy(val: Optional[str], where: int) -> str:
     # upgrade the legacy document and load it with the current codec
     doc = FakeJson.loads(text)
     to_20210209(doc)
-    Node.store.clear()
+    fresh()
     up = metapype_io.from_json(("JSON", doc))
     if _legacy_snap(up) != before:
         return "upgraded legacy document loads as a different tree: %r vs %r" % (_legacy_snap(up), before)
